@@ -44,7 +44,7 @@ JSON_INT_MN = tskit.MetadataSchema({
 })
 
 EXTRA_FAMILIES = ["json_required_other", "json_closed_with_mnvr", "json_permissive_has_mnvr",
-                  "json_mixed_rows", "struct_mnvr_f32", "json_int_mn"]
+                  "json_mixed_rows", "struct_mnvr_f32", "json_int_mn", "tsdate_default_extra"]
 ALL_FAMILIES = list(G.METADATA_FAMILIES) + EXTRA_FAMILIES
 
 
@@ -82,6 +82,17 @@ def set_family(table, family, tag=0):
         table.metadata_schema = JSON_INT_MN
         table.packset_metadata([
             JSON_INT_MN.validate_and_encode_row({"mn": 7, "w": i + tag}) for i in range(n)])
+    elif family == "tsdate_default_extra":
+        # an already dated (and then annotated / preprocessed) input: tsdate's own default schema
+        # (it allows additional properties) with old mn/vr and extra fields on the rows
+        from tsdate import schemas as _schemas
+
+        sch = _schemas.default_node_schema if hasattr(table, "flags") and hasattr(table, "individual") \
+            else _schemas.default_mutation_schema
+        table.metadata_schema = sch
+        table.packset_metadata([
+            sch.validate_and_encode_row({"mn": 3.0, "vr": 1.0, "unsplit_node_id": i + tag} if i % 3 else
+                                        {"rsid": 1000 + i + tag}) for i in range(n)])
     else:
         raise ValueError(family)
 
